@@ -139,8 +139,17 @@ def drive(tasks, link=None, max_steps=200000, on_stall="eof", order=None,
                 waiting.clear()
                 spin[name] = 0
             else:
-                waiting[name] = True
+                # only a read can be starved for good; a refused write is
+                # simply retried (the spin limit bounds a socket that never
+                # accepts anything)
+                if r == 0:
+                    waiting[name] = True
                 spin[name] += 1
+                if spin[name] > spin_limit * 10:
+                    verdict = "spin"
+                    for n in live:
+                        outs[n].state = "blocked"
+                    break
         else:
             # a result value (readAsync yields the data last)
             outs[name].value = r
